@@ -118,6 +118,12 @@ def shard(shard_i, nshards, payload):
                 text += "\nPROGRAM unterminated%d\nVAR s : STRING; END_VAR\ns := %s%s%s" % (
                     i, rng.choice(["'", "(* ", '"']), "a" * rng.randint(0, 3), blob)
                 kind += "+unterminated"
+            if i % 7 == 3 and not ascii_body:
+                # an OSCAT description block (free text, blanked before lexing) with characters of every UTF-8 length
+                body = "".join(rng.choice(pool + ["a", " ", "\n"]) for _ in range(rng.randint(1, 40)))
+                text = "(*@KEY@:DESCRIPTION*)%s%s%s(*@KEY@:END_DESCRIPTION*)\n%s" % (
+                    rng.choice(["\n", " ", ""]), body, rng.choice(["\n", " ", ""]), text)
+                kind += "+oscat"
             if i % 3 == 1:
                 # the file ends in a trailing comment / stray character whose last character is not ASCII, no final line
                 # break: its last bytes are a multi-byte sequence (or, in Windows-1252, the start of one)
@@ -193,6 +199,51 @@ def shard(shard_i, nshards, payload):
                             det[c] = {ref[0]: a, name: b}
                     res.violation("encoding-dependent", "differs:%s:%s" % ("+".join(which), name), det,
                                   {"text": text, "encodings": [ref[0], name], "kind": kind})
+            # ---- (1b) several files of different encodings in one run: each file is decoded on its own
+            if ref is not None and "check" in ref[1] and i % 2 == 0:
+                comp_text = "PROGRAM comp%d\nVAR y : INT; END_VAR\n(* gepr\u00fcft: J\u00f6rg *) y := 1;\nEND_PROGRAM\n" % i
+                mdir = os.path.join(tmp, "mixed%d" % i)
+                os.makedirs(mdir, exist_ok=True)
+                names = {}
+                for cname, cdata in (("a_comp_w1252.st", comp_text.encode("cp1252")),
+                                     ("c_comp_utf16.st", b"\xff\xfe" + comp_text.replace("comp", "cmpw").encode("utf-16-le"))):
+                    open(os.path.join(mdir, cname), "wb").write(cdata)
+                    names[cname] = os.path.join(mdir, cname)
+                for name, enc in ENCODINGS[:2] + ENCODINGS[4:]:
+                    try:
+                        data = enc(text)
+                    except UnicodeEncodeError:
+                        continue
+                    if name == "cp1252":
+                        try:
+                            data.decode("utf-8")
+                            continue
+                        except UnicodeDecodeError:
+                            pass
+                    dpath = os.path.join(mdir, "b_doc.st")
+                    open(dpath, "wb").write(data)
+                    for order in (["a_comp_w1252.st", "b_doc.st"], ["b_doc.st", "a_comp_w1252.st"],
+                                  ["c_comp_utf16.st", "b_doc.st", "a_comp_w1252.st"]):
+                        r = core.run_cli(["check"] + [os.path.join(mdir, n_) for n_ in order], tmp)
+                        res.evaluations += 1
+                        res.count("check-mixed:" + name)
+                        case = {"text": text, "encoding": name, "cmd": "check", "kind": kind, "with": order}
+                        if r["watchdog"]:
+                            res.inconclusive.append({"why": "cli watchdog", "case": case})
+                        elif crashed(r):
+                            pm = core.cli_panic(r["err"])
+                            res.violation("crash", "crash:%s" % (pm[0] + ":" + pm[1][:40] if pm else r["rc"]), r["err"][-300:], case)
+                            agreed = False
+                        else:
+                            # P0030 ('no content at all') belongs to the set, not to the document
+                            alone = (ref[1]["check"][0], [x for x in ref[1]["check"][1] if x[0] != "P0030"])
+                            mixed = summary(r)
+                            mixed = (mixed[0], [x for x in mixed[1] if x[0] != "P0030"])
+                            if alone != mixed:
+                                res.violation("encoding-dependent", "mixed-set:%s" % name,
+                                              {"alone": alone, "in_mixed_set": mixed, "order": order}, case)
+                                agreed = False
+                shutil.rmtree(mdir, ignore_errors=True)
             if agreed and ref is not None:
                 res.distinct.add(core.key_of("doc", i))
                 if len(res.samples) < 1:
